@@ -76,6 +76,13 @@ PragmaFiles ==
     \cup {I("pragma:abicoder-first:" \o v, "SU", N("SU.SourceUnit", A0, <<<<PragmaOf("abicoder", "v2"), PragmaOf("solidity", v), Item0("Plain")>>>>)) : v \in {"^0.8.0", "0.8.0"}}
     \cup {I("pragma:experimental-last:" \o v, "SU", N("SU.SourceUnit", A0, <<<<PragmaOf("solidity", v), Item0("Plain"), PragmaOf("experimental", "ABIEncoderV2")>>>>)) : v \in {"^0.8.0", "0.8.0"}}
     \cup {I("pragma:none", "SU", N("SU.SourceUnit", A0, <<<<Item0("Plain")>>>>))}
+    \* flattened / concatenated sources: a second version pragma further down the file
+    \cup {I("pragma:second:" \o v1 \o "|" \o v2, "SU",
+             N("SU.SourceUnit", A0, <<<<PragmaOf("solidity", v1), Item0("Plain"), PragmaOf("solidity", v2), Item0("Other")>>>>))
+           : v1 \in {"0.8.16", "^0.8.1"}, v2 \in {"^0.8.0", "0.8.0"}}
+    \cup {I("pragma:adjacent:" \o v1 \o "|" \o v2, "SU",
+             N("SU.SourceUnit", A0, <<<<PragmaOf("solidity", v1), PragmaOf("solidity", v2), Item0("Plain")>>>>))
+           : v1 \in {"0.8.16", "^0.8.1"}, v2 \in {"^0.8.0"}}
 
 \* C07: selfdestruct families -------------------------------------------------------------------------
 Payable(e) == Call(Ty("payable", 0), <<e>>)
@@ -114,7 +121,7 @@ RhsClasses == {<<"literal", Num("7")>>, <<"variable", Var("initial")>>, <<"strin
 ImmTypes == {<<"uint256", U256>>, <<"address", Ty("address", 0)>>, <<"bool", Ty("bool", 0)>>, <<"bytes32", Ty("bytesN", 32)>>,
              <<"string", Ty("string", 0)>>, <<"bytes", Ty("bytes", 0)>>}
 Elsewhere == {"none", "function", "modifier", "fallback", "compound-in-function", "incr-in-function"}
-ImmFile(ty, inCtor, rhs, elsewhere) ==
+ImmFile(ty, inCtor, rhs, elsewhere, writerFirst) ==
     LET target == Var("cand")
         ctorBody == IF inCtor THEN <<ExprStmt(Bin("E.Assign", target, rhs))>> ELSE <<ExprStmt(Bin("E.Assign", Var("other"), Num("1")))>>
         other == CASE elsewhere = "none" -> <<>>
@@ -124,11 +131,15 @@ ImmFile(ty, inCtor, rhs, elsewhere) ==
                    [] elsewhere = "compound-in-function" -> <<FnDecl("function", "bump", VisAttr("public") \o MutAttr("payable"), NoParams, <<>>, TRUE, <<ExprStmt(Bin("E.AssignAdd", target, Num("1")))>>)>>
                    [] elsewhere = "incr-in-function" -> <<FnDecl("function", "inc", VisAttr("public") \o MutAttr("payable"), NoParams, <<>>, TRUE, <<ExprStmt(Un("E.PreIncrement", target))>>)>>
     IN InFile(<<N("SUP.ContractDefinition", [cty |-> "contract", name |-> "Imm", bases |-> <<>>],
-                  <<<<>>, <<StateVar("cand", ty, <<>>, <<>>), StateVar("other", U256, <<>>, <<>>),
-                            FnDecl("constructor", "", <<>>, <<<<[present |-> TRUE, storage |-> "", name |-> "initial"]>>, <<U256>>>>, <<>>, TRUE, ctorBody)>> \o other>>)>>)
+                  <<<<>>, LET ctor == <<FnDecl("constructor", "", <<>>, <<<<[present |-> TRUE, storage |-> "", name |-> "initial"]>>, <<U256>>>>, <<>>, TRUE, ctorBody)>>
+                          IN <<StateVar("cand", ty, <<>>, <<>>), StateVar("other", U256, <<>>, <<>>)>>
+                             \o (IF writerFirst THEN other \o ctor ELSE ctor \o other)>>)>>)
 ImmFiles ==
-    {I("imm:" \o x[1][1] \o (IF x[2] THEN ":ctor:" ELSE ":noctor:") \o x[3][1] \o ":" \o x[4], "SU", ImmFile(x[1][2], x[2], x[3][2], x[4]))
+    {I("imm:" \o x[1][1] \o (IF x[2] THEN ":ctor:" ELSE ":noctor:") \o x[3][1] \o ":" \o x[4], "SU", ImmFile(x[1][2], x[2], x[3][2], x[4], FALSE))
        : x \in ImmTypes \X BOOLEAN \X RhsClasses \X Elsewhere}
+    \* the other writer declared BEFORE the constructor (the order of the members must not matter)
+    \cup {I("imm:" \o x[1][1] \o ":ctor:" \o x[2][1] \o ":" \o x[3] \o ":writer-first", "SU", ImmFile(x[1][2], TRUE, x[2][2], x[3], TRUE))
+           : x \in {y \in ImmTypes : y[1] \in {"uint256", "address", "bytes32"}} \X {y \in RhsClasses : y[1] \in {"literal", "variable"}} \X (Elsewhere \ {"none"})}
     \* assigned outside any constructor while some contract has an unrelated constructor
     \cup {I("imm:assigned-in-initializer", "SU",
             InFile(<<N("SUP.ContractDefinition", [cty |-> "contract", name |-> "Imm2", bases |-> <<>>],
